@@ -52,6 +52,7 @@ def run_task(task):
     core.guarded(ctx, pid + '.' + modname, '%s/%s/module' % (pid, label), mod.run, *args)
     if tier == 'thorough' and hasattr(mod, 'run_thorough') and sub in (None, getattr(mod, 'SUBTASKS', [None])[0]):
         core.guarded(ctx, pid + '.' + modname, '%s/%s/module-thorough' % (pid, label), mod.run_thorough)
+    core.guarded(ctx, modname.upper()[:3] + '.G1', '%s/%s/early-exits' % (pid, label), core.check_early_exits, modname)
     return ctx.instances, ctx.stats, ctx.assumptions, ctx.samples
 
 
